@@ -322,6 +322,21 @@ func (c *Clause) visible(prop string) bool {
 
 var droppedClauses = map[string]bool{}
 
+// frameDropped: a component of this modifies clause was not discharged in an earlier pass of the property check
+// (and belongs to other properties): callers can then rely on nothing about what the function leaves unchanged.
+func (c *Clause) frameDropped() bool {
+	if c.Kind != "modifies" {
+		return false
+	}
+	pre := c.Func + "." + c.Label
+	for k := range droppedClauses {
+		if k == pre || strings.HasPrefix(k, pre+".") {
+			return true
+		}
+	}
+	return false
+}
+
 // ownedBy: the clause is part of property prop's claim (tagged with it), or shared infrastructure (untagged).
 func (c *Clause) ownedBy(prop string) bool {
 	if len(c.Tags) == 0 {
